@@ -117,16 +117,17 @@ func runScript(ctx context.Context, options *Options, script *plruntime.Script) 
 
 	input.InitPt(pt, measurement, tags, fields, tn)
 
+	errR := script.Run(pt, nil)
+	if errR != nil {
+		return fmt.Errorf("run script error: %w", errR)
+	}
+
+	// report the point as the script left it
 	fields = pt.Fields
 	tags = pt.Tags
 	dropped = pt.Drop
 	tn = pt.Time
 	measurement = pt.Measurement
-
-	errR := script.Run(pt, nil)
-	if errR != nil {
-		return fmt.Errorf("run script error: %w", errR)
-	}
 
 	if dropped {
 		return fmt.Errorf("point dropped")
